@@ -5,6 +5,7 @@ import (
 	"sync"
 	"time"
 
+	"github.com/openfga/openfga/internal/verifhook"
 	"github.com/openfga/openfga/pkg/storage/cache/keys"
 )
 
@@ -66,6 +67,7 @@ func (p *Planner) GetPlanSelector(key keys.Key) Selector {
 	upsertPlan.touch()
 	kp, loaded := p.keys.LoadOrStore(key, upsertPlan)
 	plan := kp.(*keyPlan)
+	verifhook.RegisterPlan(plan, key)
 	if loaded {
 		plan.touch() // Mark as accessed.
 	}
